@@ -170,6 +170,11 @@ func (pl *LowNodeLoad) processOneNodePool(ctx context.Context, nodePool *desched
 	nodeThresholds := getNodeThresholds(nodeUsages, lowThresholds, highThresholds, prodLowThresholds, prodHighThresholds, resourceNames, nodePool.UseDeviationThresholds)
 	lowNodes, sourceNodes, prodLowNodes, prodHighNodes, bothLowNodes := classifyNodes(nodeUsages, nodeThresholds, lowThresholdFilter, highThresholdFilter, prodLowThresholdFilter, prodHighThresholdFilter)
 
+	// A node that is measured in this round and is not above its high thresholds interrupts its run of
+	// consecutive abnormal rounds.
+	markOtherNodesAsNormal(nodeUsages, sourceNodes, pl.nodeAnomalyDetectors)
+	markOtherNodesAsNormal(nodeUsages, prodHighNodes, pl.prodAnomalyDetectors)
+
 	logUtilizationCriteria(nodePool.Name, "Criteria for nodes under low thresholds and above high thresholds", lowThresholds, highThresholds,
 		prodLowThresholds, prodHighThresholds, len(lowNodes), len(sourceNodes), len(prodLowNodes), len(prodHighNodes), len(bothLowNodes), len(nodes))
 
@@ -270,6 +275,21 @@ func resetNodesAsNormal(lowNodes []NodeInfo, nodeAnomalyDetectors *gocache.Cache
 		if obj, ok := nodeAnomalyDetectors.Get(v.node.Name); ok {
 			anomalyDetector := obj.(anomaly.Detector)
 			anomalyDetector.Reset()
+		}
+	}
+}
+
+func markOtherNodesAsNormal(nodeUsages map[string]*NodeUsage, abnormalNodes []NodeInfo, nodeAnomalyDetectors *gocache.Cache) {
+	abnormal := sets.NewString()
+	for _, v := range abnormalNodes {
+		abnormal.Insert(v.node.Name)
+	}
+	for name := range nodeUsages {
+		if abnormal.Has(name) {
+			continue
+		}
+		if obj, ok := nodeAnomalyDetectors.Get(name); ok {
+			obj.(anomaly.Detector).Mark(true)
 		}
 	}
 }
